@@ -641,7 +641,11 @@ class Run:
             crash = p.spec.get("crash") or {}
             split = p.spec.get("split") or {}
             stall = p.spec.get("stall") or {}
-            if stall.get("at_yield") == p.nyield - 1 and not p.spec.get("_stalled"):
+            if p.counted_yield != p.nyield:
+                p.counted_yield = p.nyield
+                p.seam_seen[y["y"]] = p.seam_seen.get(y["y"], 0) + 1
+            stall_here = stall.get("at_yield") == p.nyield - 1 or ("seam" in stall and stall["seam"] == y["y"] and p.seam_seen.get(y["y"], 0) - 1 == stall.get("nth", 0))
+            if stall and stall_here and not p.spec.get("_stalled"):
                 # the process is not scheduled for a long (simulated) time at this point, e.g. while holding a lock:
                 # longer than filelock's 10 s time-out of its peers
                 p.spec["_stalled"] = True
@@ -978,6 +982,9 @@ def _procs_phase(rng: random.Random, nmax: int, crash_rate: float):
             spec["split"] = {"commit": rng.randrange(3), "num": rng.randrange(1, 8), "den": 8}
         elif r < crash_rate + 0.27:
             spec["stall"] = {"at_yield": rng.randrange(40), "us": rng.choice([11_000_000, 25_000_000])}
+        elif r < crash_rate + 0.33:
+            # a stall at a seam that lies inside a locked region (reading, writing, about to unlock): the holder keeps the lock
+            spec["stall"] = {"seam": rng.choice(["open_r", "open_w", "commit", "unlock"]), "nth": rng.randrange(3), "us": rng.choice([11_000_000, 25_000_000])}
         if rng.random() < 0.35:
             spec["pauses"] = [{"at_yield": k, "us": rng.choice([60_000, 200_000, 1_000_000])} for k in sorted(rng.sample(range(40), rng.randint(1, 3)))]
         elif rng.random() < 0.3:
